@@ -248,6 +248,8 @@ def finish(prop, tier, seed, spec, units, viols, ran, harness_fail, t0):
         rec = {'property': prop, 'op': k[1], 'class': k[2], 'count': a['count'], 'seed': seed, 'tier': tier,
                'unit': u.describe() if u else None, 'witnesses': a['witnesses'],
                'replay_cmd': './check %s --replay %s' % (prop, os.path.relpath(fn, VERIF))}
+        if w.get('replay'):
+            rec['replay_kind'] = 'custom'
         json.dump(rec, open(fn, 'w'), indent=1)
         log('VIOLATION property=%s replay=%s' % (prop, fn))
         log('   op=%s class=%s count=%d units=%s' % (k[1], k[2], a['count'], ','.join(a['units'])))
